@@ -2,7 +2,7 @@
     AAMValidator.check_equivariant_graph (model/C09_Strings.v). *)
 From Coq Require Import List NArith ZArith Bool Arith Lia Permutation.
 From SK Require Import lib.StrJoin lib.LGraph model.C01_Model model.C02_Model model.C09_Model model.C09_Strings.
-From SK Require model.C01_Opts proof.C09_Main proof.C09_Equiv proof.C09_ValidRC.
+From SK Require model.C01_Opts proof.C09_Main proof.C09_Equiv proof.C09_ValidRC proof.C09_Indep proof.C09_Canon proof.C09_Lists proof.C08_Sort lib.C01_GraphLemmas proof.C09_Str proof.C09_Balance.
 Import ListNotations.
 Local Open Scope Z_scope.
 
@@ -252,6 +252,66 @@ Proof.
   - apply (C09_ValidRC.validator_renumbering_rc N.succ G H _ _ Sinj WG WH); apply C09_Equiv.relabelled_exact.
 Qed.
 
+(** NormalizeAAM.reset_indices_and_atom_map: ids 1..n in node order, atom_map = id, and the result is the graph renamed
+    by an injective map (so every renumbering theorem of the validator applies to it) *)
+Theorem reset_indices_by_spec (order : list N) (G : mgraph) : wf G -> NoDup order -> (forall n, In n order <-> In n (node_ids G)) ->
+  Permutation (node_ids (reset_indices_by order G)) (map N.of_nat (seq 1 (length (gnodes G)))) /\
+  amap_id (reset_indices_by order G) /\
+  exists f, (forall a b, f a = f b -> a = b) /\ (forall n, In n order -> f n = sigma_of order n) /\
+            reset_indices_by order G = set_amap (relabel f G).
+Proof.
+  intros WG Ond Oin. pose proof WG as (Hnd & W2 & _).
+  assert (P : Permutation (node_ids G) order) by (apply NoDup_Permutation; auto; intros x; symmetry; apply Oin).
+  split; [|split].
+  - unfold reset_indices_by. rewrite C09_Equiv.node_ids_set_amap. rewrite (C01_GraphLemmas.node_ids_relabel (sigma_of order) G).
+    eapply Permutation_trans; [apply Permutation_map; exact P|].
+    unfold sigma_of. rewrite (C08_Sort.mapping_of_map order Ond). rewrite <- (Permutation_length P). unfold node_ids. rewrite map_length.
+    apply Permutation_refl.
+  - apply C09_Indep.amap_id_set_amap.
+  - exists (C09_Canon.tau order []). split; [intros a b; apply C09_Canon.tau_injective|]. split; [intros n I; apply C09_Canon.tau_sigma; exact I|].
+    unfold reset_indices_by. f_equal. apply C09_Lists.relabel_ext.
+    + intros n I. symmetry. apply C09_Canon.tau_sigma. apply Oin. exact I.
+    + intros a b x I. destruct (W2 a b x I) as (Ia & Ib & _). split; symmetry; apply C09_Canon.tau_sigma; apply Oin; assumption.
+Qed.
+Theorem reset_indices_spec (G : mgraph) : wf G ->
+  node_ids (reset_indices G) = map N.of_nat (seq 1 (length (gnodes G))) /\ amap_id (reset_indices G) /\
+  exists f, (forall a b, f a = f b -> a = b) /\ reset_indices G = set_amap (relabel f G).
+Proof.
+  intros WG. pose proof WG as (Hnd & W2 & _). split; [|split].
+  - unfold reset_indices, reset_indices_by. rewrite C09_Equiv.node_ids_set_amap. rewrite (C01_GraphLemmas.node_ids_relabel (sigma_of (node_ids G)) G).
+    unfold sigma_of. rewrite (C08_Sort.mapping_of_map (node_ids G) Hnd). unfold node_ids. rewrite map_length. reflexivity.
+  - apply C09_Indep.amap_id_set_amap.
+  - destruct (reset_indices_by_spec (node_ids G) G WG Hnd (fun n => iff_refl _)) as (_ & _ & f & Fi & _ & E). exists f. split; auto.
+Qed.
+
+(** NormalizeAAM.extract_subgraph: the induced subgraph - well-formed, the kept atoms with their attributes, exactly the
+    bonds between kept atoms *)
+Theorem extract_subgraph_spec (G : mgraph) (keep : list N) : wf G ->
+  wf (extract_subgraph G keep) /\
+  (forall n, label (extract_subgraph G keep) n = if mem n keep then label G n else None) /\
+  (forall a b x, In (a, b, x) (gedges (extract_subgraph G keep)) <-> In (a, b, x) (gedges G) /\ In a keep /\ In b keep).
+Proof.
+  intros WG. split; [apply C01_GraphLemmas.wf_induced; exact WG|]. split.
+  - intros n. apply C01_GraphLemmas.label_induced.
+  - intros a b x. apply C01_GraphLemmas.in_edges_induced.
+Qed.
+
+(** rsmi_balance_check at string level = the graph-level formula, relative to the CalcMolFormula contract for the two sides
+    (equal formula strings <=> equal element counts with hydrogens and equal total charge: explicit premise, RDKit) *)
+Theorem rsmi_balance_check_graph (formula : str -> option str) (a b fa fb : str) (G H : mgraph) :
+  nosep GT a -> nosep GT b -> formula a = Some fa -> formula b = Some fb ->
+  (fa = fb <-> (forall e, el_count e G = el_count e H) /\ total_charge G = total_charge H) ->
+  rsmi_balance_check formula (a ++ GG ++ b) = Some (balancedb G H).
+Proof.
+  intros Ha Hb Ea Eb Hc. pose proof (C09_Str.rsmi_balance_check_spec formula a b Ha Hb fa fb Ea Eb) as S.
+  pose proof (C09_Balance.balance_iff G H) as B.
+  unfold rsmi_balance_check in *. rewrite C09_Str.split_gg_app in * by assumption.
+  f_equal. destruct (balancedb G H) eqn:E.
+  - assert (T : fa = fb) by (apply Hc; apply B; reflexivity). apply S in T. injection T as T. exact T.
+  - destruct (C08_Model.str_eqb (formula_or_empty formula a) (formula_or_empty formula b)) eqn:E2; [|reflexivity].
+    assert (T : fa = fb) by (apply S; reflexivity). apply Hc in T. apply B in T. congruence.
+Qed.
+
 (** * Non-vacuity *)
 Example ex_expand : expand_sides 4 [3; 0; 5; 0; 0; 3; 5] = ([3; 6; 5; 7], [8; 3; 5]).
 Proof. reflexivity. Qed.
@@ -266,3 +326,6 @@ Example ex_expand_unmapped : expand_numbers [0; 0; 0] = [1; 2; 3].
 Proof. reflexivity. Qed.
 Example ex_equiv_empty : check_equivariant_graph [its0; its0; its0] = ([(0, 1); (0, 2); (1, 2)]%nat, 3%nat).
 Proof. vm_compute. reflexivity. Qed.
+Example ex_reset : node_ids (reset_indices (extract_subgraph C09_Main.ex_H [7; 2]%N)) = [1; 2]%N /\ node_ids (reset_indices_by [2; 7]%N (extract_subgraph C09_Main.ex_H [7; 2]%N)) = [2; 1]%N /\
+                   gedges (extract_subgraph C09_Main.ex_H [7; 1]%N) = [(1, 7, 2%Z)]%N /\ gedges (extract_subgraph C09_Main.ex_H [7; 2]%N) = [].
+Proof. vm_compute. repeat split. Qed.
